@@ -15,9 +15,9 @@ def verdict(run, rule, fn, construct, r, m):
                        "against (renamed or removed); no verdict"
                        % (rule, fn.module.name, r["vanished"], fn.qualname))
     elif r["verdict"] == "violation" and _opaque(r["witness"].get("live")):
-        # iteration or a condition happens inside a construct the interpreter
-        # did not unfold (a generator handed to itertools / filter / next, a
-        # lambda): the terms differ, the behaviour need not -- no verdict
+        # iteration or a condition happens inside a library combinator the
+        # interpreter does not unfold (itertools, filter, reduce, a lambda):
+        # the terms differ, the behaviour need not -- no verdict
         run.soft_error("%s: %s computes its outcome through a construct "
                        "outside the interpreter's vocabulary (%s); no verdict"
                        % (rule, fn.qualname, _opaque(r["witness"].get("live"))))
@@ -33,7 +33,11 @@ def verdict(run, rule, fn, construct, r, m):
 
 def _opaque(shown):
     txt = str(shown)
-    for marker in ("<comprehension>", "<lambda@"):
+    # library combinators over generators / callables: the iteration and
+    # the conditions are inside them (a plain comprehension is a structured
+    # term like any other and is compared)
+    for marker in ("itertools.", "functools.reduce", "builtins.filter(",
+                   "<lambda@"):
         if marker in txt:
             return marker
     return None
